@@ -908,6 +908,11 @@ def _judge_story(pre, post, m, raised, mos_warns, D, v):
                'target': m.target, 'sources': m.sources, 'carried': carried_ids, 'why': x.why}
         if x.status in ('ok', 'dup'):
             D.append(Dev(P_ORDER, 'story-order-not-protocol', det))
+            # a carried story that every allowed outcome contains and the running order does not: it has not arrived
+            due = [i for k_, i in enumerate(carried_ids) if i is not None and all(('new', k_) in a for a in x.alts)]
+            lost = [i for i in due if post_ids.count(i) < max(1, min(_tokens_ids(a, carried_ids).count(i) for a in x.alts))]
+            if lost:
+                D.append(Dev('C04', 'carried-story-did-not-arrive', dict(det, lost=lost)))
             if len(m.sources) > 1 and op in ('delete', 'move'):
                 named = [r[1] for r in m.sources if r[0] == 'id']
                 if op == 'delete' and any(i in post_ids for i in named):
